@@ -862,6 +862,11 @@ class CeiloChunk(AbstractChunk):
             # What are the valid points ?
             valids = tmp['height'].notna() * valids
 
+            # A bundle comprised of a single hit cannot be clustered (see also find_slices()).
+            # Leave it be: it will inherit its slice id below.
+            if valids.sum() < 2:
+                continue
+
             # Run the clustering
             nlabels, labels = cluster.clusterize(
                 tmp[['dt', 'height']][valids].to_numpy(), algo='agglomerative',
